@@ -4,7 +4,7 @@ from . import core, tiec
 
 THEOREMS = ["get_insert", "get_of_inserts", "entries_of_inserts", "mergeStep_spec", "mergeStep_nonempty", "combinedGet_spec",
             "insertIfNotPresent_spec", "insert_idem", "setAdd_nodup", "mem_setAdd", "freeze_unfreeze", "panic_iff", "vals_insert",
-            "inserts_order_independent", "moveContents_spec", "race_one_winner", "insertIfNotPresentMut_spec", "moveContents_truncates"]
+            "inserts_order_independent", "buildIdx_get", "buildIdx_entries", "moveContents_spec", "race_one_winner", "insertIfNotPresentMut_spec", "moveContents_truncates"]
 TRUSTED = ["Lean 4.33.0 kernel", "axioms: propext, Classical.choice, Quot.sound only (audited per theorem)",
            "statement of Props/C19.lean (refinement to multimaps up to List.Perm)",
            "model Model/Index.lean hand-written after internal.rs / rel_index_read.rs / c_rel_*.rs / c_lat_index.rs; tied by op-sequence "
@@ -231,7 +231,7 @@ def check(tier, replay=None):
     if os.environ.get("VERIF_DEV_SKIP_PROOF"):
         proof = core.ProofResult(); core.run(["lake", "build", "driver"], cwd=core.LEAN)
     else:
-        proof = core.lean_prove("AscentVerif.Props.C19", leanchecker=(tier == "thorough"))
+        proof = core.lean_prove(["AscentVerif.Props.C19", "AscentVerif.Props.C19Bridge"], leanchecker=(tier == "thorough"))
         core.require_theorems(proof, THEOREMS)
     r.proof(proof, "lake build AscentVerif.Props.C19 && #audit_module (axioms of every theorem)" + (" && lake env leanchecker" if tier == "thorough" else ""))
     binary, blog = tiec.build_ds(r)
